@@ -20,7 +20,7 @@ import (
 // events that could disturb the memory it may alias.
 
 var c18Handles = []string{"Get.Byte", "Get.String", "Get.Scan(*[]byte)", "Get.Scan(*string)", "GetPut.Byte", "Iterator.Key", "EmbeddedIterator.Key"}
-var c18Events = []string{"overwrite-same-size", "overwrite-larger", "delete", "churn", "compact", "mutate-handle", "join+balance"}
+var c18Events = []string{"overwrite-same-size", "overwrite-larger", "delete", "churn", "compact", "mutate-handle", "join+balance", "reread-into-same-variable"}
 
 type c18Case struct {
 	Handle string   `json:"handle"`
@@ -505,6 +505,31 @@ func c18Run(cs c18Case) (string, string) {
 				mutated = true
 				snapshot = strings.Repeat("#", len(snapshot))
 			}
+		case "reread-into-same-variable":
+			// the caller reads once more (another value of the same length) the same way INTO THE SAME
+			// VARIABLE, as in a loop with one destination; the slice it was handed first (it may have kept
+			// it elsewhere) is what stays under watch
+			if hb == nil || stored == "" || (cs.Handle != "Get.Byte" && cs.Handle != "Get.Scan(*[]byte)" && cs.Handle != "GetPut.Byte") {
+				break
+			}
+			stored = strings.Repeat("R", len(orig))
+			if err = ownerDM.Put(ctx, key, []byte(stored)); err != nil {
+				break
+			}
+			first := *hb
+			var r2 *olric.GetResponse
+			if r2, err = dm.Get(ctx, key); err != nil {
+				break
+			}
+			if cs.Handle == "Get.Scan(*[]byte)" {
+				err = r2.Scan(hb)
+			} else {
+				*hb, err = r2.Byte()
+			}
+			if err == nil && string(*hb) != stored {
+				return "reread-wrong-value/" + sig, fmt.Sprintf("second read into the same variable gives %q, stored %q", *hb, stored)
+			}
+			hb = &first
 		case "join+balance":
 			if _, jerr := cl.StartMember(2); jerr != nil {
 				return "setup", jerr.Error()
